@@ -45,6 +45,8 @@ class Compiler:
     def __init__(self, context):
         self.context = context
         self.table = context.tables.get('postings')
+        self.depth = 0
+        self.subquery = False
 
     def compile(self, query, parameters=None):
         """Compile an AST into an executable statement."""
@@ -85,11 +87,22 @@ class Compiler:
         # Each SELECT resolves its columns against the table named by its
         # own FROM clause. Restore the table of the enclosing statement
         # once a nested SELECT has been compiled.
+        # A nested SELECT can appear only as FROM clause or as right
+        # operand of the IN and NOT IN operators.
+        subquery, self.subquery = self.subquery, False
+        if self.depth > 0 and not subquery:
+            raise CompilationError('subquery is not allowed here', node)
         table = self.table
+        self.depth += 1
         try:
             return self._compile_select(node)
         finally:
+            self.depth -= 1
             self.table = table
+
+    def _compile_subquery(self, node):
+        self.subquery = True
+        return self._compile(node)
 
     def _compile_select(self, node):
 
@@ -156,7 +169,7 @@ class Compiler:
 
         # Subquery.
         if isinstance(node, ast.Select):
-            self.table = SubqueryTable(self._compile(node))
+            self.table = SubqueryTable(self._compile_subquery(node))
             return None
 
         # Table reference.
@@ -574,7 +587,10 @@ class Compiler:
     @_compile.register(ast.NotIn)
     def _inop(self, node: Union[ast.In, ast.NotIn]):
         left = self._compile(node.left)
-        right = self._compile(node.right)
+        if isinstance(node.right, ast.Select):
+            right = self._compile_subquery(node.right)
+        else:
+            right = self._compile(node.right)
 
         if isinstance(right, EvalQuery):
             if len(right.columns) != 1:
